@@ -129,6 +129,7 @@ def _worker(task):
         keyfn = W.key
         W0 = _decorator(mod, alg, keymap=mk())(h)
     entries = []     # (kind, form, value, canon of rounded call, key)
+    called = {}      # canon of rounded call -> first call made with it
     for kind, v in vals:
         forms = [('pos', (v,), {}), ('kw', (), {'x': v})]
         if full:
@@ -194,6 +195,26 @@ def _worker(task):
                                                 '%s: call%r raised %r' % (cfgtxt, (a, k), e),
                                                 {'task': list(task), 'value': repr(v), 'form': form}))
                     continue
+                # the entry the call itself used is the one key() names (the wrapper computes its key in its own copy of the
+                # rounding pipeline); no eviction here: maxsize is 1000
+                if alg != 'no':
+                    try:
+                        held = key in W.__cache__()
+                    except TypeError:
+                        held = True
+                    if not held:
+                        res['violations'].append(_v('C12', {'rule': 'call-stored-under-another-key', 'kind': kind, 'deep': bool(deep)},
+                                                    '%s: after the call %r its key %r is not in the cache; the cache holds %s' % (
+                                                        cfgtxt, (a, k), key, repr(list(W.__cache__().keys())[-3:])[:300]),
+                                                    {'task': list(task), 'value': repr(v), 'form': form}))
+                # ... and calls that round to the same values are answered from one entry: the second is not evaluated
+                if alg != 'no':
+                    if want in called and len(received) > n0:
+                        res['violations'].append(_v('C12', {'rule': 'same-rounding-recomputed', 'kind': kind, 'deep': bool(deep)},
+                                                    '%s: call %r rounds to %s like the earlier call %r, but the function was evaluated again' % (
+                                                        cfgtxt, (a, k), want, called[want]),
+                                                    {'task': list(task), 'value': repr(v), 'form': form}))
+                    called.setdefault(want, (a, k))
                 if len(received) > n0:
                     rx, ry = received[-1]
                     ax = a[0] if a else k.get('x')
